@@ -136,8 +136,8 @@ def main(argv):
     try:
         subprocess.check_call(["rsync", "-a", "--exclude", "target", "--exclude", ".git", REPO + "/", scratch + "/"])
         base = {}
-        for prop in sorted(set(x[0] for x in items)):
-            b, fatal, out = run_check(prop, scratch, evdir)
+        allb = run_checks(sorted(set(x[0] for x in items)), scratch, evdir)
+        for prop, (b, fatal) in allb.items():
             if fatal:
                 print("baseline of %s failed:\n%s" % (prop, fatal))
                 return 2
